@@ -504,6 +504,32 @@ theorem apk_plan_to_bytes_and_back (H : Hashes) (fs : Bytes → Bytes) (plan : L
     exact Or.inr ⟨it, hit, rfl⟩))
   exact h.2
 
+/-- an archlinux payload item of the C03 model as a logical tar member (format left to archive/tar: USTAR or PAX) -/
+def archToPax (it : Member × Bytes) (pax : List (Bytes × Bytes) := []) : Tar.PMember :=
+  { hdr := { flavor := .ustar, name := it.1.name, mode := it.1.mode, size := it.2.length, mtime := it.1.mtime.toNat,
+             typeflag := it.1.kind, linkname := it.1.link, uname := it.1.uname, gname := it.1.gname },
+    pax := pax, body := it.2 }
+
+/-- **archlinux, from the plan to the bytes and back**: the payload members the model of arch.createFilesInTar computes
+    from a plan, then .PKGINFO, then the gzip .MTREE the model renders, then .INSTALL if any – compressed into one
+    stream – are taken apart again by an independent reader into exactly those members in that order, and what the
+    .MTREE member holds, once decompressed, is the declarative manifest of the members as shipped: `#mtree`, the
+    .PKGINFO line, one line per payload member with its type, mode, time, size, MD5, SHA-256 and link target -/
+theorem arch_plan_to_bytes_and_back (H : Hashes) (fs : Bytes → Bytes) (plan : List Content) (pkginfo : Bytes) (mt : Int)
+    (hok : ∀ c ∈ plan, C03.archFileType c → C03.FileOK fs c)
+    (z zg : Bytes → Bytes) (u ug : Bytes → Option Bytes) (hz : Pkg.Inverts u z) (hg : Pkg.Inverts ug zg)
+    (mtreeHdr : Tar.Hdr) (install : List Tar.PMember)
+    (hm : ∀ m ∈ (archData H fs plan).map (archToPax ·) ++ [archToPax (archPkginfoMember pkginfo mt, pkginfo),
+            { hdr := mtreeHdr, body := zg (archMtree H fs plan pkginfo mt) }] ++ install, PaxOK m) :
+    Pkg.readArch u (Pkg.archFile z ((archData H fs plan).map (archToPax ·) ++ [archToPax (archPkginfoMember pkginfo mt, pkginfo),
+            { hdr := mtreeHdr, body := zg (archMtree H fs plan pkginfo mt) }] ++ install))
+      = some ((archData H fs plan).map (archToPax ·) ++ [archToPax (archPkginfoMember pkginfo mt, pkginfo),
+            { hdr := mtreeHdr, body := zg (archMtree H fs plan pkginfo mt) }] ++ install)
+    ∧ ug (zg (archMtree H fs plan pkginfo mt))
+        = some (expMtree ((archData H fs plan).map (C03.storedShip H)) (ship H (archPkginfoMember pkginfo mt) pkginfo)) := by
+  refine ⟨arch_package_roundtrip z u hz _ hm, ?_⟩
+  rw [hg, C03.arch_mtree_match H fs plan pkginfo mt hok]
+
 /-- non-vacuity: a concrete deb (uncompressed members, one data file, an md5sums member) is read back -/
 example :
     Pkg.readDeb some some (Pkg.debFile 1700000000 id id (b!"data.tar")
